@@ -16,7 +16,7 @@ RULE = ("phase 1 populates a filesystem store through a writable backend (seeded
 ASSUMPTIONS = ["CPython audit events cover every mutating file operation", "force_local (defined to override the cluster runner) is not used with the null runner"]
 COMPONENTS = {"real": ["storage backends, runner backends, MementoFunction call path", "tmpfs", "audit-hook FS seam"],
               "stub": ["uuid4 (seeded)", "clock (virtual)"]}
-REACH = ["ro_ops", "calls_served", "calls_executed", "ro_rejections", "null_storage_calls", "null_runner_calls", "mutation_events_armed"]
+REACH = ["ro_metadata_with_data_attempts", "ro_ops", "calls_served", "calls_executed", "ro_rejections", "null_storage_calls", "null_runner_calls", "mutation_events_armed"]
 
 
 def gen_ro_ops(rng, n, knobs):
@@ -32,7 +32,7 @@ def gen_ro_ops(rng, n, knobs):
         elif r < 0.33:
             out.append(["fforget_all", fns[rng.randrange(4)]])
         elif r < 0.37:
-            out.append(["fputmeta", fns[rng.randrange(4)], rng.randrange(4), "log"])
+            out.append(["fputmeta", fns[rng.randrange(4)], rng.randrange(4), "log", rng.random() < 0.5])
         elif r < 0.39:
             out.append(["forget_cluster"])
         out.append(op) if op[0] != "restart" or rng.random() < 0.5 else None
